@@ -132,4 +132,39 @@ PROPS = {
         "trusted_base": ["hand-written model of the kubectl-eds run() bodies tied by the cli stream; merge-patch semantics of the fake client"],
         "assumptions": COMMON_ASSUME + ["annotation maps have unique keys (Go maps)"],
     },
+    "C17": {
+        "level_text": "Partial by nature. Lean theorems about a sequentially consistent interleaving model of the three parallel helpers (EdsModel/Conc.lean): C17_channel_fanin_complete and C17_locked_append_complete (for every number of goroutines, every failure subset and EVERY schedule, the errors collected are a permutation of the errors injected: none lost, none duplicated), C17_sync_prefix_safe, C17_unsynchronised_loses (the unguarded read-modify-write append does lose an error under some schedule), C17_racy_never_invents, C17_progress; which discipline each helper follows is not hand-written: C17_no_conflict / C17_helpers_known are obligations on the goroutine-write facts extracted from the source on this run (every write to a shared variable inside a go func is a channel send or an append under a lock). Supporting evidence: the harness is built with -race and runs the real helpers with none/some/all of 2..64 simultaneous calls failing, and the four reconcilers plus a kubelet model concurrently against one store; returned errors are counted against injected ones and any race-detector report is a violation.",
+        "level_note": TB + "Data-race freedom of the compiled program under the Go memory model is a runtime fact no executable Lean model exhibits: the theorems are about the extracted synchronisation skeleton at the granularity 'one statement = one step'; the race detector only sees the interleavings that happen. 'Reflected in ReconcileError or PodsCleanupDone' is checked on the real cleanupPods and, through the ers_reconcile stream, on the persisted status.",
+        "streams": [("parallel", 600, 6000), ("concurrent_reconcile", 40, 400)],
+        "race": True,
+        "partial": ["data-race freedom under the Go memory model is observed (race detector), not proved", "C17_reflected at L2 (failures of parallel operations set ReconcileError in the persisted status) is checked by streams, not yet stated as a theorem"],
+        "trusted_base": ["tools/extract goroutine-write facts (syntactic lock tracking inside go func literals)", "Go race detector (supporting evidence)"],
+        "assumptions": COMMON_ASSUME + ["sequential consistency at statement granularity for the interleaving model"],
+    },
+    "C07": {
+        "level_text": "Lean theorems on the model of the EDS Reconcile: C07_active_unchanged (a failed canary is never promoted), C07_rollback_status / C07_rollback_writes (status.canary cleared, state Canary Failed, activeReplicaSet unchanged, then spec.template restored to the active replica set's template, status write before spec write), C07_recoverable (+ _after_status_write, _spec_write_even_if_status_current: the spec write is planned again from ANY status the first write may have left, so the rollback completes if the spec write failed or the controller stopped between the two writes), C07_after_rollback_converged, C07_retention / C07_failed_kept / C07_retention_is_two_minutes (a failed replica set is deleted only when it reports no pods and at least the extracted 2-minute retention after it failed), C07_canary_cleared; the real Reconcile runs against a fake API server over replica-set populations with failed canaries at every age around the retention bound and its writes (order, targets, contents) are compared with the model's.",
+        "level_note": TB + "Modelled by hand: the EDS Reconcile as store -> ordered writes. 'Subsequently replaces the canary pods by pods of the active template' is the replica-set controller's rolling update on the former canary nodes (C03/C02): covered by the scenario stream, theorem level inherits C02's partial label.",
+        "streams": [("eds_reconcile", 2500, 40000)],
+        "extra_theorems": [("EdsProofs.FactsBridge", "facts_times")],
+        "trusted_base": ["hand-written L2 model of the EDS Reconcile tied by the eds_reconcile stream (2500 cases agree on every write)"],
+        "partial": ["replacement of canary pods on the former canary nodes after the rollback is a liveness statement across two controllers: scenario-level evidence, not a theorem"],
+        "assumptions": COMMON_ASSUME + ["replica-set names are unique within a namespace (API server)"],
+    },
+    "C13": {
+        "level_text": "Lean theorems on the model of the EDS Reconcile: C13_create_only_if_none, C13_created_faithful (template hash, hash annotation, name label even when the EDS's own labels define that key, namespace, owner), C13_reuse / C13_reuse_selects (re-applying or reverting to a template reuses its replica set), C13_cleanup_safe / C13_active_never_deleted / C13_uptodate_never_deleted / C13_in_use_never_deleted / C13_cleanup_zero_each, and the history invariant C13_at_most_one / C13_at_most_one_history / C13_at_most_one_from_empty (over ANY interleaving of reconciles with arbitrary spec/annotation/status changes and replica-set status updates, at most one replica set per template hash exists), C13_spec_never_written / C13_survivors_unchanged; tied by the eds_reconcile stream (create-only-if-none, created-faithful, cleanup-safe evaluated on the real writes) and the hash stream.",
+        "level_note": TB + "Modelled by hand: the EDS Reconcile. Template identity = MD5 of the JSON of the pod template, computed by the real GenerateMD5PodTemplateSpec in the harness (collision freedom and insensitivity to map construction order are assumptions exercised by the hash checks). Holds under read-your-writes; informer-cache staleness is outside the model. The PodTemplate mirror is covered by the podtemplate stream when registered.",
+        "streams": [("eds_reconcile", 2500, 40000)],
+        "trusted_base": ["hand-written L2 model of the EDS Reconcile tied by the eds_reconcile stream; MD5 collision freedom on the templates at hand"],
+        "partial": ["PodTemplate mirror clause: stream-level only until the podtemplate model lands"],
+        "assumptions": COMMON_ASSUME,
+    },
+    "C14": {
+        "level_text": "Lean theorems: C14_status_function (the status computed by the EDS reconcile satisfies the declarative Spec.C14 clauses: current/ready/available are sums over its replica sets, desired/upToDate from the active and, during a canary, the canary replica set, state/reason/canary block and the Canary-Paused/Canary-Failed conditions agree with the canary facts and annotations, in every branch), C14_eds_writes_status / C14_written_status_ok / C14_no_write_means_current, C14_ers_order and C14_ers_order_canary (0 <= available <= ready <= current <= desired for the active and canary role, for every node/pod layout), C14_unknown_zero_desired, C14_conditions_update / C14_transition_time; the real Reconcile functions run against the model (eds_reconcile, ers_reconcile, manage_deployment, manage_canary streams) and the same Spec.C14 clauses are evaluated on the statuses they write.",
+        "level_note": TB + "Modelled by hand: both Reconcile functions. The quiescent clause (counters equal the numbers of pods that exist / are Ready / run the live template) is checked by the scenario stream at quiescence and inherits C02's partial label.",
+        "streams": [("eds_reconcile", 2000, 40000), ("ers_reconcile", 1500, 30000), ("manage_deployment", 800, 16000), ("manage_canary", 800, 16000)],
+        "extra_theorems": [("EdsProofs.FactsBridge", "facts_states")],
+        "trusted_base": ["hand-written L2 models of both Reconcile functions tied by the eds_reconcile / ers_reconcile streams"],
+        "partial": ["C14_quiescent: scenario-level evidence only"],
+        "assumptions": COMMON_ASSUME,
+    },
 }
